@@ -116,8 +116,9 @@ class _Run:
                             except TimeoutError:
                                 run.log.append(("gthrow", a))
                                 continue
-                            except DatagramProtocolParseError:
-                                run.log.append(("gparse", a))
+                            except DatagramProtocolParseError as exc:
+                                # a malformed datagram (starts with "!") is handed over as an exception
+                                run.log.append(("grecv", a, bytes(exc.error.error_info["data"])))
                                 continue
                             run.log.append(("grecv", a, bytes(req)))
                         elif ch[0] == 2:
@@ -134,6 +135,7 @@ class _Run:
         return Scripted()
 
     async def main(self):
+        from easynetwork.exceptions import DeserializeError
         from easynetwork.lowlevel import _utils
         from easynetwork.lowlevel.api_async.backend._asyncio.backend import AsyncIOBackend
         from easynetwork.lowlevel.api_async.backend.abc import TaskGroup
@@ -179,6 +181,8 @@ class _Run:
                 return bytes(packet)
 
             def deserialize(self, data):
+                if bytes(data[:1]) == b"!":
+                    raise DeserializeError("malformed", error_info={"data": bytes(data)})
                 return bytes(data)
 
         class MemListener(AsyncDatagramListener):
@@ -382,7 +386,7 @@ def convert(naddr, log):
         elif k == "crash":
             obs.append([O_CRASH])
         else:
-            obs.append([8, 0])      # gparse / gcancelled: never expected, always a disagreement
+            obs.append([8, 0])      # gcancelled: never expected, always a disagreement
     summary = [[gens[a], active[a], recvd[a]] for a in range(naddr)]
     return labels, obs, summary, maxactive
 
@@ -479,7 +483,7 @@ def _exhaustive(maxact, maxprog, mode, seen):
             actions, k = [], 0
             for x in seq:
                 if x == "A":
-                    actions.append([0, 0, bytes([97 + k])])
+                    actions.append([0, 0, bytes([97 + k]) if k != 1 else b"!b"])
                     k += 1
                 elif x == "R":
                     actions.append([1, 0])
@@ -505,7 +509,7 @@ def _random_case(rng, seen, thorough):
     while k < ndg:
         r = rng.random()
         if r < 0.5:
-            actions.append([0, rng.randrange(naddr), bytes([97 + k])])
+            actions.append([0, rng.randrange(naddr), (b"!" if rng.random() < 0.2 else b"") + bytes([97 + k])])
             k += 1
         elif r < 0.7:
             actions.append([1, rng.randrange(naddr)])
@@ -543,7 +547,7 @@ def _analyse(naddr, log, where):
         k = ev[0]
         if k == "crash":
             return f"crash: serve() terminated ({where})"
-        if k in ("gparse", "gcancelled"):
+        if k == "gcancelled":
             return f"unexpected: generator got {k} ({where})"
         if k == "arrive":
             arrived[ev[1]].append(ev[2])
@@ -620,3 +624,19 @@ def shrink(inp):
             yield make_input(naddr, p2, actions, mode)
     if mode and mode[0]:
         yield make_input(naddr, progs, actions, [0])
+
+
+if __name__ == "__main__":
+    # re-record the label trace of a replay file on the current tree (the labels in a replay file are those of the
+    # tree that produced it):  python3 -m c16 rerecord replays/C16/failing_input.json  -> writes <file>.rerecorded.json
+    import json
+    import sys
+
+    from common import sx as _sx
+    if len(sys.argv) == 3 and sys.argv[1] == "rerecord":
+        j = json.load(open(sys.argv[2]))
+        i = _sx.from_text(j["input_sx"])
+        fresh = make_input(i[0], i[2], i[3], i[4])
+        out = sys.argv[2][:-5] + ".rerecorded.json"
+        json.dump(dict(property="C16", input_sx=_sx.to_text(fresh), note="labels re-recorded"), open(out, "w"), indent=1)
+        print(out)
